@@ -11,6 +11,7 @@ Inductive rounding := RoundInt | TruncateInt | RoundOther.
 Inductive cmp := CmpGe | CmpGt | CmpOther.
 Inductive expiry_form := ExpiryNoWrap | ExpiryWrapSum | ExpiryOther.
 Inductive tally_form := TallyNoAdd | TallyAdd | TallyOther.
+Inductive dup_form := DupSeenSet | DupPrevOnly | DupNone | DupOther.
 
 Record code_cfg := {
   cc_pipeline : list string;         (* stage calls reached from UpdateExchangeRates, in order, helpers inlined *)
@@ -36,6 +37,8 @@ Record code_cfg := {
   cc_validate_min_voters : bool;
   cc_validate_band : bool;
   cc_edit_validates : bool;          (* EditOracleParams validates the merged params before storing (662a06f) *)
+  cc_dup_check : dup_form;           (* NewExchangeRateTuplesFromString: a repeated pair is detected with a set of ALL pairs seen so far /
+                                        only by comparing with the preceding tuple / not at all *)
   cc_voter_strings : list string     (* the distinct forms of the Voter field in every AggregateExchangeRate(Pre)vote literal of
                                         x/oracle{,/keeper,/types}: "canon" = <address>.String(), otherwise "raw:<expr>" *)
 }.
@@ -89,6 +92,14 @@ Definition validate_ok (c : code_cfg) : bool :=
     (Model.voter_string true); a literal built from a message field selects [voter_string false] *)
 Definition voter_canonical (c : code_cfg) : bool := forallb (String.eqb "canon") (cc_voter_strings c).
 
+(** which duplicate test the vote-string parser applies = the [dc] flag of the message-level model (None: a shape the
+    model has no variant for) *)
+Definition dup_variant (c : code_cfg) : option bool :=
+  match cc_dup_check c with DupSeenSet => Some true | DupPrevOnly => Some false | _ => None end.
+
 (** the configuration the theorems of Property.v are about *)
 Definition cfg_ok (c : code_cfg) : bool :=
-  match variant_of c with Some (true, true, true) => validate_ok c && voter_canonical c | _ => false end.
+  match variant_of c, dup_variant c with
+  | Some (true, true, true), Some true => validate_ok c && voter_canonical c
+  | _, _ => false
+  end.
